@@ -184,10 +184,15 @@ _rots_row = ('implies(AcqSum(g, old(gs)[j], cols(gs) // 2) % 2 == 1, forall(c, 0
 CONTRACTS[U + 'clifford_rotate_signless'] = dict(
     params=[('g', 'int1'), ('gs', 'int2')],
     requires=['len(g) == cols(gs)'],
-    ensures=['forall(j, 0, rows(gs), %s)' % _rots_row],
+    ensures=['forall(j, 0, rows(gs), %s)' % _rots_row,
+             # the same statement with rows as whole arrays (for callers that reason about commutation of whole rows)
+             'forall(j, 0, rows(gs), same(gs[j], Xor(old(gs)[j], g)) if AcqSum(g, old(gs)[j], cols(gs) // 2) % 2 == 1 else same(gs[j], old(gs)[j]))',
+             'implies(bits1(g) and bits2(old(gs)), bits2(gs))'],
     modifies=['gs'], returns='=gs',
     loops={0: dict(var='j', invariant=['forall(jj, 0, j, %s)' % _rots_row.replace('[j]', '[jj]'),
-                                       'forall(jj, j, L, same(gs[jj], old(gs)[jj]))'])},
+                                       'forall(jj, 0, j, same(gs[jj], Xor(old(gs)[jj], g)) if AcqSum(g, old(gs)[jj], cols(gs) // 2) % 2 == 1 else same(gs[jj], old(gs)[jj]))',
+                                       'forall(jj, j, L, same(gs[jj], old(gs)[jj]))',
+                                       'implies(bits1(g) and bits2(old(gs)), bits2(gs))'])},
 )
 
 # ------------------------------------------------------------------ C12: map <-> state
@@ -1277,11 +1282,15 @@ CONTRACTS[U + 'pauli_diagonalize2'] = dict(
              'unitZ(result[1], i0, len(old(g1)) // 2)',
              'result[2][2 * i0] == 1',
              'forall(c, 0, len(old(g1)), implies(c != 2 * i0 and c != 2 * i0 + 1, result[2][c] == 0))',
+             'bits1(result[1])', 'bits1(result[2])',
+             'implies(len(result[0]) >= 1, len(result[0][0]) == len(old(g1)) and bits1(result[0][0]))',
+             'implies(len(result[0]) >= 2, len(result[0][1]) == len(old(g1)) and bits1(result[0][1]))',
+             'implies(len(result[0]) >= 3, len(result[0][2]) == len(old(g1)) and bits1(result[0][2]))',
              'implies(len(result[0]) == 0, eqn(result[1], %s, 2 * N) and eqn(result[2], %s, 2 * N))' % (_o1, _o2),
              'implies(len(result[0]) == 1, eqn(result[1], %s, 2 * N) and eqn(result[2], %s, 2 * N))' % (_d2_chain1(_o1), _d2_chain1(_o2)),
              'implies(len(result[0]) == 2, eqn(result[1], %s, 2 * N) and eqn(result[2], %s, 2 * N))' % (_d2_chain2(_o1), _d2_chain2(_o2)),
              'implies(len(result[0]) == 3, eqn(result[1], %s, 2 * N) and eqn(result[2], %s, 2 * N))' % (_d2_chain3(_o1), _d2_chain3(_o2))],
-    modifies=[], returns=('list', 'int1', 'int1'),
+    modifies=[], returns=(('list', 'int1', 3), 'int1', 'int1'),
     hints={
         'if1.then.end': [
             ('lemma', 'acq_antisym', [_o1, _o1, 'N']),
@@ -1333,3 +1342,68 @@ CONTRACTS[U + 'pauli_diagonalize2'] = dict(
 
 import re as _re
 CONTRACTS[U + 'pauli_diagonalize2']['ensures'] = [_re.sub(r'\bN\b', '(len(old(g1)) // 2)', e) for e in CONTRACTS[U + 'pauli_diagonalize2']['ensures']]
+
+# ------------------------------------------------------------------ C16: random_clifford (the recursive sampler of arXiv:2008.06011)
+# For EVERY draw of the generator the result satisfies the canonical commutation relations (gram_map) - i.e. it is the binary table of
+# a Clifford map.  Induction over the recursion: an anticommuting pair brought to (Z, X or Y) on the first qubit, a valid table on the
+# remaining qubits in the lower right block, zeros elsewhere - a block-diagonal valid table -, then rotated back by the generators
+# that diagonalised the pair (signless rotations preserve every commutation relation: rot_preserve).
+LEMMAS['acq_drop2'] = dict(
+    doc='if one of two strings is trivial on the first qubit, the symplectic form is the one of the strings without that qubit',
+    params=[('x', 'int1'), ('y', 'int1'), ('n', 'int')],
+    requires=['n >= 1', '(x[0] == 0 and x[1] == 0) or (y[0] == 0 and y[1] == 0)'],
+    ensures=['AcqSum(x, y, n) == AcqSum(Drop2(x), Drop2(y), n - 1)'],
+    induction='n',
+)
+_rcR = 'region_random_clifford__0'
+_rcT = {'trigger': 'AcqSum(gs[a], gs[b], n)'}
+_rcAB = [('a', '2', '2 * n'), ('b', '2', '2 * n')]
+_rc_block = 'forall(a, 2, 2 * n, forall(b, 2, 2 * n, AcqSum(gs[a], gs[b], n) == AcqSum(%s[a - 2], %s[b - 2], n - 1)))' % (_rcR, _rcR)
+_rc_low = 'forall(b, 2, 2 * n, gs[b][0] == 0 and gs[b][1] == 0)'
+_rc_init = [
+    # (1) lower right block: the symplectic form of two rows is the one of the block the recursive call filled
+    ('assert_from', _rc_block,
+     [('forall_lemma', _rcAB, 'acq_drop2', ['gs[a]', 'gs[b]', 'n'], _rcT),
+      ('forall_lemma', _rcAB, 'acqsum_ext', ['%s[a - 2]' % _rcR, 'Drop2(gs[a])', '%s[b - 2]' % _rcR, 'n - 1'], _rcT),
+      ('forall_lemma', _rcAB, 'acqsum_ext', ['%s[b - 2]' % _rcR, 'Drop2(gs[b])', 'Drop2(gs[a])', 'n - 1'], _rcT)]),
+    ('assert_from', 'forall(a, 2, 2 * n, forall(b, 2, 2 * n, AcqSum(gs[a], gs[b], n) % 2 == b2i(b == partner(a))))',
+     [_rc_block, 'gram_map(%s, n - 1)' % _rcR, 'rows(%s) == 2 * n - 2' % _rcR]),
+    # (2) the first pair against the block: the pair lives on the first qubit, the block rows are trivial there
+    ('assert_from', 'forall(b, 2, 2 * n, AcqSum(gs[0], gs[b], n) == 0 and AcqSum(gs[b], gs[0], n) == 0 and AcqSum(gs[1], gs[b], n) == 0 and AcqSum(gs[b], gs[1], n) == 0)',
+     [_rc_low,
+      ('forall_lemma', [('b', '2', '2 * n')], 'acq_local', ['gs[0]', 'gs[b]', 'n', '0'], {'trigger': 'AcqSum(gs[0], gs[b], n)'}),
+      ('forall_lemma', [('b', '2', '2 * n')], 'acq_local', ['gs[1]', 'gs[b]', 'n', '0'], {'trigger': 'AcqSum(gs[1], gs[b], n)'}),
+      ('forall_lemma', [('b', '2', '2 * n')], 'acq_antisym', ['gs[0]', 'gs[b]', 'n'], {'trigger': 'AcqSum(gs[0], gs[b], n)'}),
+      ('forall_lemma', [('b', '2', '2 * n')], 'acq_antisym', ['gs[1]', 'gs[b]', 'n'], {'trigger': 'AcqSum(gs[1], gs[b], n)'})]),
+    # (3) the first pair itself: Z against X or Y on the first qubit
+    ('assert_from', 'AcqSum(gs[0], gs[1], n) == 1 and AcqSum(gs[1], gs[0], n) == 0 - 1 and AcqSum(gs[0], gs[0], n) == 0 and AcqSum(gs[1], gs[1], n) == 0',
+     ['gs[0][0] == 0', 'gs[0][1] == 1', 'gs[1][0] == 1', 'n >= 2',
+      ('lemma', 'acq_local', ['gs[0]', 'gs[1]', 'n', '0']),
+      ('lemma', 'acq_antisym', ['gs[0]', 'gs[1]', 'n']),
+      ('lemma', 'acq_antisym', ['gs[1]', 'gs[1]', 'n'])]),
+]
+_rcH = "at('loop0.head', gs)"
+CONTRACTS[U + 'random_clifford.random_clifford_'] = dict(
+    params=[('gs', 'int2')],
+    requires=['rows(gs) == cols(gs)', 'cols(gs) % 2 == 0', 'cols(gs) >= 2', 'forall(a, 0, rows(gs), forall(c, 0, cols(gs), gs[a][c] == 0))'],
+    ensures=['bits2(gs)', 'gram_map(gs, cols(gs) // 2)'],
+    modifies=['gs'], returns='=gs', decreases='cols(gs)',
+    loops={0: dict(invariant=['bits2(gs)', 'gram_map(gs, n)', 'rows(gs) == 2 * n', 'cols(gs) == 2 * n'],
+                   hints_init=_rc_init,
+                   hints_end=[
+                       # every row has been rotated by g (callee's postcondition, rows as whole strings); rotations preserve commutation
+                       ('assert', 'forall(j, 0, 2 * n, same(gs[j], rot(g, %s[j], n)))' % _rcH),
+                       ('assert_from', 'gram_map(gs, n)',
+                        ['forall(j, 0, 2 * n, same(gs[j], rot(g, %s[j], n)))' % _rcH, 'gram_map(%s, n)' % _rcH,
+                         ('forall_lemma', [('a', '0', '2 * n'), ('b', '0', '2 * n')], 'rot_preserve', ['g', '%s[a]' % _rcH, '%s[b]' % _rcH, 'n'],
+                          {'trigger': 'AcqSum(gs[a], gs[b], n)'})]),
+                   ])},
+    hints={'return': [('lemma?', 'acq_antisym', ['gs[0]', 'gs[1]', 'n']), ('lemma?', 'acq_antisym', ['gs[0]', 'gs[0]', 'n']),
+                      ('lemma?', 'acq_antisym', ['gs[1]', 'gs[1]', 'n'])]},
+)
+CONTRACTS[U + 'random_clifford'] = dict(
+    params=[('N', 'int')],
+    requires=['N >= 1'],
+    ensures=['rows(result) == 2 * N', 'cols(result) == 2 * N', 'bits2(result)', 'gram_map(result, N)'],
+    modifies=[], returns='int2 fresh',
+)
